@@ -308,7 +308,20 @@ def rule_DELEG(ctx):
     gb = m.funcs.get('bits:Bits._getbytes')
     if gb is None:
         raise AnalysisError('anchor vanished: Bits._getbytes')
-    g = G.find_guard(gb, lambda t: isinstance(t, ast.BinOp) and isinstance(t.op, ast.Mod) and G.is_len_of(t.left, 'self') and fold(t.right) == 8)
+    def partial_bytes(t):
+        return isinstance(t, ast.BinOp) and isinstance(t.op, ast.Mod) and G.is_len_of(t.left, 'self') and fold(t.right) == 8
+    g = G.find_guard(gb, partial_bytes)
+    if g is None:
+        # the same thing the other way round: the value is returned only under `len(self) % 8 == 0`, everything else raises
+        body = G.body_wo_doc(gb)
+        cv = G.cond_values(body) or []
+        whole = []
+        for t, v in cv:
+            t2 = G.expand(gb, t, G.simple_aliases(gb, with_tests=True)) if isinstance(t, ast.AST) else t
+            ok_t = isinstance(t2, ast.Compare) and len(t2.ops) == 1 and isinstance(t2.ops[0], ast.Eq) and partial_bytes(t2.left) and fold(t2.comparators[0]) == 0
+            whole.append(ok_t)
+        if cv and all(whole) and body and isinstance(body[-1], ast.Raise):
+            g = type('G', (), {'test': G.expand(gb, cv[0][0], G.simple_aliases(gb, with_tests=True))})()
     if g is None:
         r.fail(gb.key, 'len(self) % 8 guard', 'the bytes interpretation must refuse lengths that are not whole bytes', loc=gb.loc())
     else:
@@ -317,8 +330,12 @@ def rule_DELEG(ctx):
     writes = [x for x in own_walk(tf.node) if isinstance(x, ast.Call) and isinstance(x.func, ast.Attribute) and x.func.attr == 'write']
     def exact(w):
         a = w.args[0] if w.args else None
-        return isinstance(a, ast.Call) and isinstance(a.func, ast.Attribute) and a.func.attr == 'tobytes' and not a.args \
-            and isinstance(a.func.value, ast.Name)
+        if not (isinstance(a, ast.Call) and isinstance(a.func, ast.Attribute) and a.func.attr == 'tobytes' and not a.args):
+            return False
+        v = a.func.value          # a chunk: a local, or a slice of self taken right there
+        return isinstance(v, ast.Name) or (isinstance(v, ast.Call) and isinstance(v.func, ast.Attribute) and ast.unparse(v.func.value) == 'self'
+                                           and v.func.attr in ('_slice', '_absolute_slice', '__getitem__')) \
+            or (isinstance(v, ast.Subscript) and ast.unparse(v.value) == 'self')
     if not writes or not all(exact(w) for w in writes):
         r.fail(tf.key, 'tofile writes tobytes()', 'tofile must write exactly the tobytes() of each chunk', loc=tf.loc())
     else:
